@@ -792,7 +792,7 @@ impl ShellValue {
         literal_values: ArrayLiteral,
     ) {
         let mut new_key = if let Some((largest_index, _)) = existing_values.last_key_value() {
-            largest_index + 1
+            largest_index.wrapping_add(1)
         } else {
             0
         };
@@ -803,7 +803,8 @@ impl ShellValue {
             }
 
             existing_values.insert(new_key, value);
-            new_key += 1;
+            // The index after the largest one wraps around instead of overflowing.
+            new_key = new_key.wrapping_add(1);
         }
     }
 
